@@ -100,9 +100,20 @@ SpansEmptyColumn(c, run) ==
         /\ row.c[j].colspan >= 2
         /\ \E q \in (starts[j] + 1)..(starts[j] + row.c[j].colspan) : lay.cw[q] = 0
         /\ \E q \in (starts[j] + 1)..(starts[j] + row.c[j].colspan) : lay.cw[q] > 0
+\* C05 "blank-cell-column": the size estimate of a text node counts one column for leading white space even when
+\* nothing follows it, so a cell holding white space only (pretty-printed markup) gets a column of width 1
+\* although it renders nothing.  A table of such cells alone draws its top rule and no row; nested in a cell
+\* of another table that rule makes a row of height 0 (two rules back to back).  The suite pins the width-1
+\* column (test_issue_54_oob, test_nested_table_1), so it is recorded.  Class: the document has a td / th
+\* whose text is white space only, and the output is exactly what the specification predicts.
+HasBlankCell(dom) == LET ns == NodesSeq(dom) IN
+                     \E i \in 1..Len(ns) : ns[i].k = "e" /\ ns[i].h /\ ns[i].n \in {"td", "th"}
+                                             /\ FlowText(ns[i]) # <<>> /\ NonWs(FlowText(ns[i])) = <<>>
 KF_Table(c) ==
   IF \A i \in 1..Len(c.runs) : SpansEmptyColumn(c, c.runs[i]) /\ ModelAgrees(c, c.runs[i])
-  THEN "colspan-over-empty-column" ELSE ""
+  THEN "colspan-over-empty-column"
+  ELSE IF \A i \in 1..Len(c.runs) : HasBlankCell(Dom1(c, c.runs[i])) /\ ModelAgrees(c, c.runs[i])
+  THEN "blank-cell-column" ELSE ""
 
 \* not a finding: C18's generator-side deletion must be the reference deletion (tool sanity)
 KF_C18(c) == IF C18Sane(c) THEN "" ELSE "generator-mismatch"
